@@ -159,9 +159,8 @@ func Prime(rand io.Reader, bits int) (*Int, error) {
 }
 func (z *Int) String() string { return z.ToBigInt().String() }
 func (z *Int) Exp(x, y *Int, m *compatiblemod.Mod) *Int {
-	// Exp requires y to be reduced modulo m
-	y.Mod(y, m)
-	z.Int.Exp(&x.Int, y.Bytes(m), &m.Modulus)
+	// the exponent is an integer, not a residue: reducing it modulo m changes the result
+	z.Int.Exp(&x.Int, y.FillBytes(make([]byte, (y.BitLen()+7)/8)), &m.Modulus)
 	return z
 }
 
